@@ -128,6 +128,42 @@ def check_g12(ctx, rep):
             if extra:
                 why.append("some fixed obstructions are skipped under the extra condition(s) %s" % extra)
             rep.violation("G12", x, f, what, "; ".join(why), key="Circuit::computeRows|obstacle filter")
+    # the obstacle list is only grown: a pruning step must be sound for *every* order and shape of the rows
+    for x in walk(f.body):
+        if x.get("kind") not in ("CXXMemberCallExpr", "CallExpr"):
+            continue
+        ci = callee_info(x)
+        if not ci:
+            continue
+        removal = (ci["is_member"] and ci["obj"] is not None and canon(ci["obj"]) == ov and ci["name"] in ("erase", "pop_back", "clear", "resize", "assign")) or \
+                  (not ci["is_member"] and ci["name"] in ("remove_if", "remove", "unique", "partition") and ci["args"] and
+                   any(t == ov for t in subterms(canon(ci["args"][0]))))
+        if not removal:
+            continue
+        if ci["is_member"] and ci["name"] == "erase" and any(callee_info(y) and callee_info(y)["name"] in ("remove_if", "remove", "unique")
+                                                             for y in walk(x) if y is not x and y.get("kind") == "CallExpr"):
+            continue            # the erase half of erase(remove_if(...)): judged at the remove_if
+        # bounds used by the pruning predicate
+        lam = [y for y in walk(x) if y.get("kind") == "LambdaExpr"]
+        caps = set()
+        for l_ in lam:
+            for y in walk(l_):
+                if y.get("kind") == "DeclRefExpr" and (y.get("referencedDecl") or {}).get("kind") == "VarDecl":
+                    caps.add((y.get("referencedDecl") or {}).get("id"))
+        single = []
+        for vid in caps:
+            d = f.unit.by_id.get(vid)
+            init = canon(children(d)[-1]) if d is not None and d.get("kind") == "VarDecl" and children(d) else None
+            if init is not None and any(t[0] == "call" and t[1] in ("front", "back") or (t[0] == "index" and t[2][0] == "lit")
+                                        for t in subterms(init) if isinstance(t, tuple) and t):
+                single.append((d.get("name"), pretty(init)))
+        what = "obstacles are removed from the list (%s)" % ci["name"]
+        if single:
+            rep.violation("G12", x, f, what, "the pruning bound(s) %s come from one particular row (%s): rows may be given in any order, so an "
+                          "obstacle inside the placement area can be dropped and the rows returned overlap it" % (
+                              [n_ for n_, _i in single], single[0][1][:50]), key="Circuit::computeRows|obstacles pruned by a single row's bounds")
+        else:
+            rep.unknown("G12", x, f, what, "soundness of the pruning is not analysed: every obstacle must still be subtracted from every row it touches")
     # every row processed, all segments kept
     loops = [x for x in walk(f.body) if x.get("kind") == "CXXForRangeStmt"]
     row_loop = None
@@ -187,6 +223,10 @@ def check_g13(ctx, rep):
             elif full:
                 rep.unknown("G13", node, f, "obstacle loop", why)
                 okneg = None
+    # what is subtracted is the obstacle itself; a bound replaced by the row's own bound ("cut over the whole height") is sound only
+    # for obstacles that really overlap the row on that axis with a positive extent
+    for x in neg:
+        _check_inflation(ctx, rep, f, x)
     if okneg:
         rep.holds("G13", neg[0], f, "every obstacle is inserted with the subtract flag (full-range loop, no skip)")
     elif okneg is False:
@@ -230,6 +270,43 @@ def check_g13(ctx, rep):
             if not orient:
                 why.append("segment not built with this->orientation")
             rep.violation("G13", x, f, "emitted segment", "; ".join(why), key="Row::freespace|emitted segment")
+
+
+def _check_inflation(ctx, rep, f, x):
+    from ..order import Facts
+    a = canon(callee_info(x)["args"][0])
+    coords = [t for t in a[2:] if isinstance(t, tuple)] if a[0] in ("construct", "call", "initlist") else []
+    if len(coords) != 4:
+        return
+    own = [t for t in coords if t[0] == "field" and t[2] == ("this",)]
+    if not own:
+        return
+    obst = [t for t in coords if t[0] == "field" and t[2] != ("this",)]
+    if not obst:
+        rep.violation("G13", x, f, "the subtracted rectangle is the row itself", pretty(a)[:80], key="Row::freespace|subtracted rectangle")
+        return
+    base = obst[0][2]
+    F = Facts()
+    for gc, val, _a, _b in (ctx.guards(f, x) or []):
+        F.add_cond(gc, val)
+    for axis in ("X", "Y"):
+        if not any(t[1].endswith("min" + axis) or t[1].endswith("max" + axis) for t in own):
+            continue
+        R = CQ + "Rectangle::"
+        rmin, rmax = ("field", R + "min" + axis, ("this",)), ("field", R + "max" + axis, ("this",))
+        omin, omax = ("field", R + "min" + axis, base), ("field", R + "max" + axis, base)
+        reach = F.derives(omax, rmin, strict=True) and F.derives(rmax, omin, strict=True)
+        solid = F.derives(omax, omin, strict=True)
+        what = "obstacle cut over the whole %s extent of the row" % ("height" if axis == "Y" else "width")
+        if reach and solid:
+            rep.holds("G13", x, f, what, "only for obstacles of positive extent that overlap the row on that axis")
+        elif reach:
+            rep.violation("G13", x, f, what, "the dominating tests let a degenerate obstacle through (min%s == max%s strictly inside the row): it covers "
+                          "nothing, yet it is turned into a full-%s blocker and splits the row" % (axis, axis, "height" if axis == "Y" else "width"),
+                          key="Row::freespace|degenerate obstacle inflated")
+        else:
+            rep.violation("G13", x, f, what, "not restricted to obstacles that overlap the row on that axis: an obstacle above or below the row would "
+                          "remove its columns", key="Row::freespace|obstacle inflated without overlap test")
 
 
 def obstacle_skips(ctx, f, body, var):
@@ -291,6 +368,11 @@ def separation_atom(c, val, var):
             return None
         return owner, name[3], name[:3]
     l, r = side(c[2]), side(c[3])
+    if l is not None and r is not None and l[0] == r[0] == "O" and l[1] == r[1]:
+        # the obstacle's own extent on one axis: min >= max means it is empty there and covers nothing
+        lo_, hi_ = (l, r) if c[1] in (">=", ">") else (r, l)
+        if lo_[2] == "min" and hi_[2] == "max":
+            return True, ""
     if l is None or r is None or l[0] == r[0]:
         return None, "does not compare an obstacle bound with a row bound"
     op = c[1]
